@@ -141,10 +141,13 @@ def angDiff (a b : Float) : Float :=
 
 def handleRt (args impl : List String) : String :=
   match fls args, fls impl with
-  | some (lat0 :: _lon0 :: lat :: lon :: dist :: more), some [x, y, _azi, _rk, lat', lon', x', y'] =>
-    -- a latitude of exactly ±45° hits the octant slip of the geodesic library's own sincosdx
-    -- (recorded finding): such failures are labelled so that they are told apart from any other
-    let tag := if Float.abs lat0 == 45.0 ∨ Float.abs lat == 45.0 then " tag=geodesic-lat45" else ""
+  | some (lat0 :: lon0 :: lat :: lon :: dist :: more), some [x, y, _azi, _rk, lat', lon', x', y'] =>
+    -- a latitude of exactly ±45°, or a longitude difference of exactly 45° or 135°, hits the octant
+    -- slip of the geodesic library's own sincosdx (recorded findings): such failures are labelled so
+    -- that they are told apart from any other
+    let dl := angDiff lon lon0
+    let tag := if Float.abs lat0 == 45.0 ∨ Float.abs lat == 45.0 then " tag=geodesic-lat45"
+      else if dl == 45.0 ∨ dl == 135.0 then " tag=geodesic-lon45" else ""
     -- the horizon: the geodesic scale M12 of the point relative to the centre (computed by the
     -- harness with the geodesic library) is positive inside and negative beyond
     let scale : Option Float := more.head?
@@ -166,6 +169,23 @@ def handleRt (args impl : List String) : String :=
       else if !(near 1e-6 1e-6 x x' ∧ near 1e-6 1e-6 y y') then s!"VIOL clause=ge.roundtrip_plane{tag}"
       else "OK nt=1"
     else "SKIP reason=on_horizon"
+  | _, _ => "BAD"
+
+/-- the reverse order: plane coordinates → position → plane coordinates, to 1e-6 relative -/
+def handleTr (args impl : List String) : String :=
+  match fls args, fls impl with
+  | some [lat0, _lon0, x, y], some [lat, lon, x', y'] =>
+    -- a point on a diagonal of the plane is at an azimuth of exactly ±45° or ±135° from the centre:
+    -- the same octant slip of the geodesic library as for a latitude of ±45° (recorded findings)
+    let tag := if Float.abs lat0 == 45.0 then " tag=geodesic-lat45"
+      else if Float.abs x == Float.abs y ∧ x != 0.0 then " tag=geodesic-azi45" else ""
+    -- relative to the point's distance from the origin of the plane (a coordinate that is zero has
+    -- no relative error of its own), plus a micrometre
+    let tol := 1e-6 * Float.sqrt (x * x + y * y) + 1e-6
+    if lat.isNaN ∨ lon.isNaN then s!"VIOL clause=ge.reverse_nan{tag}"
+    else if x'.isNaN ∨ y'.isNaN then s!"VIOL clause=ge.roundtrip_plane{tag} x={x} y={y} got=NaN"
+    else if !(Float.abs (x - x') ≤ tol ∧ Float.abs (y - y') ≤ tol) then s!"VIOL clause=ge.roundtrip_plane{tag} x={x} y={y} got={x'},{y'}"
+    else "OK nt=1"
   | _, _ => "BAD"
 
 def handleIx (args impl : List String) : String :=
@@ -195,6 +215,7 @@ def handle (args : List String) (impl : List String) : String :=
   | "scd" :: rest => handleScd rest impl
   | "atd" :: rest => handleAtd rest impl
   | "rt" :: rest => handleRt rest impl
+  | "tr" :: rest => handleTr rest impl
   | "ix" :: rest => handleIx rest impl
   | _ => "BAD"
 
